@@ -106,6 +106,17 @@ class Prop(BaseProp):
                 continue
             for present, missing in ((b"\x4c", 1), (b"\x4d", 2), (b"\x4d\x00", 1), (b"\x4c", 2), (b"\x4d", 1), (b"\x4d\x00", 2)):
                 cases.append({"kind": "Parse", "inp": (varint(len(body) + len(present) + missing) + body + present).hex(), "pp": False})
+        # a body cut at k and DECLARED k bytes long (the stream ends exactly where the script says): the last push then declares more
+        # than the script has room for; also the same followed by further bytes
+        for cmds in valid[: (30 if tier == "thorough" else 8)]:
+            try:
+                body = Script(to_py(cmds)).raw_serialize()
+            except Exception:
+                continue
+            for k in (range(1, len(body)) if len(body) <= 40 or tier == "thorough" else list(range(1, 12)) + [len(body) - 1, len(body) - 2]):
+                cases.append({"kind": "Parse", "inp": (varint(k) + body[:k]).hex(), "pp": False})
+        for h in ["0305aabb", "044c50aabb", "0376a914", "054d0500aabb", "0205aa", "024c05", "034c0201", "064d0300aabb", "0305aabbccddee", "02014c"]:
+            cases.append({"kind": "Parse", "inp": h, "pp": False})
         for h in ["014c00", "014c01aa", "014d0000", "024d0000", "014d000000", "024d0100aa", "004c00", "0051", "024c0051", "034d000051"]:
             cases.append({"kind": "Parse", "inp": h, "pp": False})
         for h in ["", "00", "01", "0101", "0504aa", "0201", "024c00", "024c01", "034c01", "034c01aa", "034d0100", "044d0100aa", "014c", "014d",
